@@ -108,6 +108,8 @@ pub(crate) mod prelude {
 
     impl RecursionCheck {
         pub(crate) fn check_depth(_depth: usize) -> Result<(), super::error::CustomError> {
+            #[cfg(toml_rs_toml_verif)]
+            crate::__verif::on_check_depth(_depth);
             #[cfg(not(feature = "unbounded"))]
             if LIMIT <= _depth {
                 return Err(super::error::CustomError::RecursionLimitExceeded);
@@ -120,6 +122,8 @@ pub(crate) mod prelude {
             #[cfg(not(feature = "unbounded"))]
             {
                 self.current += 1;
+                #[cfg(toml_rs_toml_verif)]
+                crate::__verif::on_enter(self.current);
                 if LIMIT <= self.current {
                     return Err(super::error::CustomError::RecursionLimitExceeded);
                 }
@@ -130,6 +134,8 @@ pub(crate) mod prelude {
         fn exit(&mut self) {
             #[cfg(not(feature = "unbounded"))]
             {
+                #[cfg(toml_rs_toml_verif)]
+                crate::__verif::on_exit(self.current);
                 self.current -= 1;
             }
         }
